@@ -90,6 +90,8 @@ func runWriterFault(w wfCase) (fl *Fail, nt bool) {
 		sk.from = w.K
 	case "close-once":
 		sk.closeErr = 1
+	case "close-persist":
+		sk.closeErr = 1 << 30
 	}
 	jc := jobsClass(w.P.Jobs)
 	defer func() {
@@ -133,7 +135,7 @@ func runWriterFault(w wfCase) (fl *Fail, nt bool) {
 	_ = stopped
 	closeOK := false
 	nClose := 1
-	if w.Policy == "close-twice" || w.Kind == "close-once" {
+	if w.Policy == "close-twice" || w.Kind == "close-once" || w.Kind == "close-persist" {
 		nClose = 3
 	}
 	for i := 0; i < nClose; i++ {
@@ -152,6 +154,9 @@ func runWriterFault(w wfCase) (fl *Fail, nt bool) {
 	_ = faultsAtFirstErr
 	if sk.faults > 0 && !sawErr {
 		return failf(fmt.Sprintf("sink-failure-never-reported kind=%s jobs=%s", w.Kind, jc), "the sink failed %d time(s) but no Write/Close returned an error (%s): %v", sk.faults, w, log), true
+	}
+	if closeOK && w.Kind == "close-persist" {
+		return failf(fmt.Sprintf("close-ok-although-underlying-close-fails jobs=%s", jc), "the sink's Close() fails every time, yet Writer.Close returned nil (%s): %v", w, log), true
 	}
 	if closeOK && !bytes.Equal(sk.buf.Bytes(), ref) {
 		return failf(fmt.Sprintf("close-ok-on-incomplete-stream kind=%s policy=%s jobs=%s", w.Kind, w.Policy, jc), "Close returned nil but the sink holds %d bytes, the complete stream has %d (first difference at %d) (%s): %v", sk.buf.Len(), len(ref), firstDiff(sk.buf.Bytes(), ref), w, log), true
@@ -446,6 +451,7 @@ func init() {
 								}
 							}
 							emit(wfCase{P: p, Len: cfg.len, Kind: "close-once", Policy: pol, Parts: ws})
+							emit(wfCase{P: p, Len: cfg.len, Kind: "close-persist", Policy: pol, Parts: ws})
 						}
 					}
 				}
